@@ -24,7 +24,12 @@ def build(rng, facts, name, pair=None):
     live = list(parts); args = []
     while len(live) > 1:
         a = live.pop(rng.randrange(len(live))); c = live.pop(rng.randrange(len(live)))
-        j0 = b.emit("kobs " + c); b.kmerge(a, c); b.emit("kobs " + c, ("same", j0))       # the argument is unchanged
+        if rng.random() < 0.5:          # the receiver has been queried (its store may have reorganised itself) before it absorbs the argument
+            b.emit(rng.choice(["q %s %s" % (a, f2h(rng.random())), "kforeach %s 0" % a, "kenc scratch %s 0" % a, "kobs " + a]))
+        j0 = b.emit("kobs " + c) if rng.random() < 0.7 else None       # (sometimes the argument is not read before the merge either)
+        b.kmerge(a, c)
+        if j0 is None: j0 = b.emit("kobs " + c)
+        else: b.emit("kobs " + c, ("same", j0))       # the argument is unchanged
         args.append((c, j0))
         if rng.random() < 0.5 and vals:
             # ... and stays unchanged when the receiver is written to afterwards (no shared memory); the same value goes to the single sketch
